@@ -569,7 +569,17 @@ class Ctx:
         self._sync_facts()
         self.solver.push()
         self.solver.add(cond)
-        r = self.solver.check()
+        # feasibility has a 2 s soft budget; the watchdog enforces it (an interrupted query counts as feasible)
+        import threading
+        t = threading.Timer(8.0, self.solver.ctx.interrupt)
+        t.daemon = True
+        t.start()
+        try:
+            r = self.solver.check()
+        except z3.Z3Exception:
+            r = z3.unknown
+        finally:
+            t.cancel()
         self.solver.pop()
         return r != z3.unsat
 
@@ -1527,6 +1537,18 @@ def _generic_iter(ctx, it):
     return None
 
 
+def _bits_of_const(x, c, term):
+    """sum over the set bits k of the non-negative constant c of term(bit_k(x), k), bit_k(x) = floor(x / 2^k) mod 2"""
+    total = 0
+    k = 0
+    while c >> k:
+        if (c >> k) & 1:
+            bit = L.fmod(L.fdiv(x, 2 ** k), 2)
+            total = total + term(bit, k)
+        k += 1
+    return total
+
+
 def _is_boolish(v):
     return isinstance(v, bool) or (is_sym(v) and z3.is_bool(v))
 
@@ -1679,6 +1701,10 @@ def binop(ctx, op, a, b):
             if not is_sym(c) and c < 0 and _pow2_exp(-c):
                 # x & ~(2^k-1)  = x - x mod 2^k
                 return s - L.fmod(s, -c)
+            if not is_sym(c) and 0 <= c and bin(c).count("1") <= 8:
+                # x & C for a constant with few bits: sum over the set bits k of (floor(x / 2^k) mod 2) * 2^k
+                # (Python's & on negative integers is two's complement of unbounded width: same formula)
+                return _bits_of_const(s, c, lambda bit, k: bit * 2 ** k)
             raise Undecided("bitwise and with non-mask")
         if isinstance(op, ast.BitOr):
             # Int mode: a | b is accepted only with the proved side condition a = x * 2^k and 0 <= b < 2^k (then a | b = a + b)
@@ -1691,8 +1717,16 @@ def binop(ctx, op, a, b):
                             return x + y
                 if not is_sym(x) and x == 0:
                     return y
+            s_, c_ = (a_, b_) if is_sym(a_) else (b_, a_)
+            if is_sym(s_) and not is_sym(c_) and 0 <= c_ and bin(c_).count("1") <= 8:
+                # x | C = x + sum over the set bits k of C that are clear in x of 2^k
+                return s_ + _bits_of_const(s_, c_, lambda bit, k: (1 - bit) * 2 ** k)
             raise Undecided("bitwise or on unbounded integers without a provable disjoint-bits side condition")
         if isinstance(op, ast.BitXor):
+            s_, c_ = (a_, b_) if is_sym(a_) else (b_, a_)
+            if is_sym(s_) and not is_sym(c_) and 0 <= c_ and bin(c_).count("1") <= 8:
+                # x ^ C = x + sum over the set bits k of C of (+2^k if clear in x else -2^k)
+                return s_ + _bits_of_const(s_, c_, lambda bit, k: (1 - 2 * bit) * 2 ** k)
             raise Undecided("bitwise xor on unbounded integers (outside Int mode)")
         raise Undecided("int binop " + type(op).__name__)
     # bytes
@@ -1994,6 +2028,12 @@ def subscript(ctx, base, idx):
             for i in range(1, n):
                 r = z3.If(z3.Or(idx == i, idx == i - n), z3.IntVal(base[i]), r)
             return r
+        if isinstance(base, dict) and len(base) <= 64 and all(isinstance(k, (int, str, bytes)) for k in base):
+            # small constant table keyed by plain values: decided key by key (KeyError when no key matches)
+            for k in base:
+                if ctx.branch(value_eq(ctx, idx, k)):
+                    return lift_native(ctx, base[k])
+            raise PyRaise(KeyError)
         raise Undecided("symbolic index into native container")
     try:
         return base[idx]
